@@ -250,4 +250,24 @@ theorem C13_hsts_effective_after_any_refresh_history_counterexample :
 example : stsOf (hRun {} [.add 1 none false [] false, .patch exOn, .patch exOn2]) 1 = (stsEdit exOn2).toList ∧
     stsOf (hRun {} [.patch exOn, .add 1 none true [] false, .patch exOff]) 1 = [] := by decide
 
+/-- **A response of an HTTP/2 backend reaches the client intact** (response arm
+    of `handle_header`, no-op callback; the editor's additions are
+    `C13_response_additions_only`). For every accepted response header block:
+    the status line carries exactly the backend's three-digit `:status`, and
+    every header written to the client is one of the backend's own regular
+    header fields — or the single framing header sozu adds (`Content-Length: 0`
+    / `Transfer-Encoding: chunked`). -/
+theorem C13_h2_response_intact (lim : Limits) (es : Bool) (hl : List (Bytes × Bytes)) (r : Resp)
+    (h : validateResponse lim es id hl = .ok r) :
+    (r.status.length = 3 ∧ r.status.all isDigit = true ∧ ∃ kv ∈ hl, eqNoCase kv.1 sStatus = true ∧ kv.2 = r.status) ∧
+    (∀ f ∈ r.fields, (∃ kv ∈ hl, f = Field.hdr kv.1 kv.2 ∧ kv.1.head? ≠ some 58) ∨
+       f = .hdr cContentLength [48] ∨ f = .hdr cTransferEncoding sChunked) :=
+  response_intact lim es hl r h
+
+/-- a 204 with END_STREAM gets no Content-Length; a 200 does; `:status: 2000` is refused -/
+example : (∃ r, validateResponse ⟨65536, 100, 2 ^ 64⟩ true id [(sStatus, [50, 48, 52]), ([120], [49])] = .ok r ∧ r.fields = [.hdr [120] [49]]) ∧
+    (∃ r, validateResponse ⟨65536, 100, 2 ^ 64⟩ true id [(sStatus, [50, 48, 48])] = .ok r ∧ r.fields = [.hdr cContentLength [48]]) ∧
+    validateResponse ⟨65536, 100, 2 ^ 64⟩ true id [(sStatus, [50, 48, 48, 48])] = .error .invalidStatus :=
+  ⟨⟨_, rfl, rfl⟩, ⟨_, rfl, rfl⟩, rfl⟩
+
 end Sozu.Headers
